@@ -99,9 +99,10 @@ SPEC = {
     'Variable::is_readable': ('r', '''        ensures r == ((self.access_level & AccessLevel::ALL) & 1 == 1),'''),
     'Variable::is_writable': ('r', '''        ensures r == ((self.access_level & AccessLevel::ALL) & 2 == 2),'''),
     'user_access_level': ('r', '''        ensures r.bits == user_level(*node),'''),
-    'is_readable': ('r', '''        // readable exactly when the CurrentRead bit of the (effective) user access level is set
-        ensures r == (user_level(*node) & 1 == 1),'''),
-    'is_writable': ('r', '''        ensures r == may_write(*node, attribute_id),'''),
+    'is_readable': ('r', '''        // readable only when the CurrentRead bit of the (effective) user access level is set
+        ensures r ==> (user_level(*node) & 1 == 1),'''),
+    # "succeeds only if the user access level allows writing": further refusals are not against the property
+    'is_writable': ('r', '''        ensures r ==> may_write(*node, attribute_id),'''),
 }
 
 LEMMAS = '''
